@@ -162,6 +162,10 @@ Inductive acase :=
 | CReadsFinal (reads : list bytes) (final : option bytes)
     (* reads of a key made after an Emplace of it had returned, nothing but
        Emplaces writing it: each shows the value the key holds in the end *)
+| COwnSet (lasts : list (N * bool)) (final : option bytes)
+    (* one set-valued entry; every goroutine adds and removes only its own
+       letter: (letter, was its last successful Mutate an add?) - the letters
+       in the set in the end are exactly those whose last success was an add *)
 | CRemoveRace (attempts : list N) (init : bytes) (final : option bytes)
     (* Removes of one existing key holding [init]: 0 ok / 1 not found / 2 busy *)
 | CBlocked (writer : bool) (mid hret : N) (calls : list hcall).
@@ -206,6 +210,17 @@ Definition check_acase (c : acase) : bool :=
       end
   | CReadsFinal reads final =>
       forallb (fun r => opt_bytes_eqb (Some r) final) reads
+  | COwnSet lasts final =>
+      match final with
+      | Some b =>
+          match set_parse b with
+          | Some l =>
+              forallb (fun p => Bool.eqb (existsb (fun x => x =? fst p) l) (snd p)) lasts &&
+              forallb (fun x => existsb (fun p => fst p =? x) lasts) l
+          | None => false
+          end
+      | None => false
+      end
   | CRemoveRace attempts init final =>
       let oks := filter (fun a => a =? 0) attempts in
       let nfs := filter (fun a => a =? 1) attempts in
